@@ -8,6 +8,7 @@ import CruxVerif.Lemmas.EvictComplete
 import CruxVerif.Lemmas.FreshUse
 import CruxVerif.Lemmas.RRun
 import CruxVerif.Lemmas.Park
+import CruxVerif.Lemmas.GPark
 namespace Props.C07
 open M.Rt
 
@@ -68,6 +69,37 @@ theorem stored_blocks_well_formed (c : Cmd) (canon : Bool) (acts : List M.Hosts.
   rcases ht with ht | ht
   · exact w.t cid t ht
   · exact w.s cid t ht
+
+/-- **EVERY STORED TASK IS QUEUED OR PARKED — over whole runs.** For every host-free task program (any number of spawned
+    tasks, `join!`, `select!`, streams, hand-offs, join handles, self-wakes, self-aborts) held directly by a test, after EVERY
+    history of resolutions, drops, aborts and polls, every task in the command's slab is
+      * on the ready queue (it will be polled by the next `run_until_settled`), or
+      * aborted through its join handle, or
+      * LIVE-PARKED: the waker of its last poll is registered at every request leaf, stream leaf and join-handle queue the
+        task is suspended at (`LPB`) — whatever happens at any of those points wakes exactly this task.
+    So a task that is kept is never stranded: "not done" means that something can still happen. Global invariant `GInv`
+    (Lemmas/PFrame, WPoll, Park, GPark ≈ 1900 lines) = K2 (the polled task parks itself) + `poll_keeps_others_parked`
+    (ownership of channels: C02 `Own`) + `woken_means_queued` (freshness: `serials_fresh_direct`) + well-formedness (`WFw`),
+    through run_task, finishing (join-handle wake-ups), spawning, settling, and the shell's resolve / drop / abort
+    (taking a leaf's waker wakes exactly the task parked there). -/
+theorem stored_task_queued_or_parked (is : List Instr) (hf : hostFreeIs is = true) (canon : Bool)
+    (acts : List M.Hosts.Action) (os : List M.Hosts.Obs) (d : M.Hosts.Direct)
+    (h : M.Hosts.runDirect (.task is) canon acts = some (os, d)) (tid : Nat) (t : Task)
+    (hg : (d.w.cmd d.cid).tasks.get? tid = some t) :
+    tid ∈ (d.w.cmd d.cid).ready ∨ (d.w.getMeta t.serial).aborted = true ∨ ∃ s, LPB (.task d.cid tid s) d.w t.fut :=
+  (M.Hosts.runDirect_gp is hf canon acts os d h).gp tid t hg (fun e => by cases e)
+
+/-- … in particular, once the command is settled (empty ready queue — the state every `effects()` / `events()` / `is_done()`
+    leaves it in), every stored task that was not aborted waits at live registrations of its own waker -/
+theorem settled_tasks_are_parked (is : List Instr) (hf : hostFreeIs is = true) (canon : Bool)
+    (acts : List M.Hosts.Action) (os : List M.Hosts.Obs) (d : M.Hosts.Direct)
+    (h : M.Hosts.runDirect (.task is) canon acts = some (os, d)) (hr : (d.w.cmd d.cid).ready = [])
+    (tid : Nat) (t : Task) (hg : (d.w.cmd d.cid).tasks.get? tid = some t) (hna : (d.w.getMeta t.serial).aborted = false) :
+    ∃ s, LPB (.task d.cid tid s) d.w t.fut := by
+  rcases stored_task_queued_or_parked is hf canon acts os d h tid t hg with h1 | h1 | h1
+  · rw [hr] at h1; cases h1
+  · rw [hna] at h1; cases h1
+  · exact h1
 
 /-- A POLL DOES NOT DISTURB THE PARKING OF OTHER TASKS: one poll of a host-free block `b0` (any waker, sink, fuel, world)
     leaves every block `b1` that references none of `b0`'s channels (channels are unshared: C02) parked exactly where it
